@@ -73,6 +73,8 @@ func readerResult(exprs []*lisp.LVal, err error) J {
 }
 
 // lexAll returns the complete token stream of src as (type, text) pairs.
+var sharedFormatConfigs map[string]*formatter.Config
+
 func lexAll(src string) []interface{} {
 	lx := lexer.New(token.NewScannerString("l", src))
 	var out []interface{}
@@ -181,6 +183,16 @@ func init() {
 			}
 			if in.Format {
 				fr := J{}
+				if sharedFormatConfigs == nil {
+					// one Config value per configuration for the whole run, the way cmd/fmt shares one across files
+					sharedFormatConfigs = map[string]*formatter.Config{
+						"default":         formatter.DefaultConfig(),
+						"compact":         {IndentSize: 2, MaxBlankLines: 1, Compact: true, Rules: formatter.DefaultRules()},
+						"compact-strip":   {IndentSize: 2, MaxBlankLines: 1, Compact: true, StripComments: true, Rules: formatter.DefaultRules()},
+						"indent4-norules": {IndentSize: 4, MaxBlankLines: 2, Rules: map[string]*formatter.IndentRule{}},
+						"strip":           {IndentSize: 2, MaxBlankLines: 1, StripComments: true, Rules: formatter.DefaultRules()},
+					}
+				}
 				for name, cfg := range map[string]*formatter.Config{
 					"default":         formatter.DefaultConfig(),
 					"compact":         {IndentSize: 2, MaxBlankLines: 1, Compact: true, Rules: formatter.DefaultRules()},
@@ -190,6 +202,10 @@ func init() {
 				} {
 					o, ferr := formatter.Format([]byte(in.Text), cfg)
 					e := J{"ok": ferr == nil}
+					if so, serr := formatter.Format([]byte(in.Text), sharedFormatConfigs[name]); (serr == nil) != (ferr == nil) || string(so) != string(o) {
+						// Format is a function of text and configuration: what the SAME Config value formatted before must not matter
+						e["shared_differs"] = string(so)
+					}
 					if ferr == nil {
 						e["out"] = string(o)
 						o2, e2 := formatter.Format(o, cfg)
